@@ -44,6 +44,9 @@ class Explorer:
         self.violations = []          # (clause, detail)
         self.callers = []
         self.h2 = cfg.get("http2", False)
+        # HTTP/2 offered by the pool, HTTP/1.1 chosen by every origin (ALPN): requests are handed a connection that is still being
+        # established as if it could be shared, find out that it cannot, and are queued again
+        self.h2_pool = self.h2 or cfg.get("h2_fallback", False)
         self.peers = []
         self.wrappers_peers = []      # proxy / SOCKS servers in front of the origin peers (kinds other than "direct")
         self.steplog = []             # per step: (callers done so far, ids of pooled connections)
@@ -104,7 +107,7 @@ class Explorer:
         if self.cfg.get("gate_close"):
             self.net.ungated_ops = set()
         kw = dict(max_connections=self.cfg["max_connections"], max_keepalive_connections=self.cfg.get("max_keepalive"),
-                  keepalive_expiry=self.cfg.get("keepalive_expiry"), http2=self.h2, retries=self.cfg.get("retries", 0),
+                  keepalive_expiry=self.cfg.get("keepalive_expiry"), http2=self.h2_pool, retries=self.cfg.get("retries", 0),
                   network_backend=simnet.AsyncSimBackend(self.net))
         if self.h2 or self.tls():
             kw["ssl_context"] = simnet.RecordingSSLContext()
@@ -117,7 +120,7 @@ class Explorer:
 
     def tls(self):
         kind = self.cfg.get("kind", "direct")
-        return kind == "tunnel" or (kind != "forward" and (self.h2 or self.cfg.get("tls", False)))
+        return kind == "tunnel" or (kind != "forward" and (self.h2_pool or self.cfg.get("tls", False)))
 
     def url(self, c):
         scheme = "https" if self.tls() else "http"
@@ -677,3 +680,9 @@ def run_c07(ctx, rec):
     explore(ctx, rec, "C07", {"p_fault": 0.0, "p_cancel": 0.0, "http2": True, "p_conn_close": 0.0, "pool_timeout": None}, 60, 3000, ["C07:"])
     explore(ctx, rec, "C07", {"p_fault": 0.05, "p_cancel": 0.05, "http2": True, "p_conn_close": 0.0, "pool_timeout": None,
                               "max_connections": 1}, 60, 3000, ["C07:"])
+    # HTTP/2 offered, HTTP/1.1 negotiated: the request that finds the shared connection taken is queued again and must be served by
+    # whatever capacity there is (room for a new connection, an idle one to evict) without waiting for another event
+    explore(ctx, rec, "C07", {"p_fault": 0.0, "p_cancel": 0.0, "h2_fallback": True, "p_conn_close": 0.0, "pool_timeout": None, "p_hold": 0.6},
+            80, 3000, ["C07:"])
+    explore(ctx, rec, "C07", {"p_fault": 0.05, "p_cancel": 0.05, "h2_fallback": True, "p_conn_close": 0.2, "pool_timeout": None, "p_hold": 0.5,
+                              "origins": 1}, 60, 3000, ["C07:"])
